@@ -203,4 +203,18 @@ CHECKS = {
         floors={"cancel=true": 0.3, "stop=true": 0.03, "cancel_while_parked=true": 0.03},
         assumptions=COMMON_ASSUMPTIONS,
     ),
+    "C19": dict(
+        level="exploration",
+        rule=("four rapid sub-checks and a fuzz target. roundtrip: sequences of 1..50 arbitrary envelope values (every presence combination of header/status/body/trailer/reset, ids over the uint64 range incl. 0 and MaxUint64, bodies up to 64KiB quick / 1MiB thorough, valid-UTF-8 strings incl. non-ASCII and 300-char, repeated metadata/details/route entries) "
+              "written on one end and read on the other of: the channel transport (synctest bubble), a real loopback WebSocket pair (read limit raised by the harness, as the library leaves it to the caller), two GoatOverHttp endpoints over loopback HTTP; oracle proto.Equal in write order. "
+              "raw: WebSocket text frames, random bytes and mutated/truncated valid encodings as binary frames or HTTP bodies, HTTP requests without body / header / source; oracle: delivered iff the reference proto.Unmarshal accepts (and, for HTTP, header and source are present) and then equal, otherwise an error / HTTP 400 and nothing delivered. "
+              "ctx: a parked Read or Write on each transport returns with an error once its context is cancelled or its deadline passes (virtual clock for channel and HTTP read; real time with 3s grace for sockets). "
+              "idle: ServeHTTP driven directly with a recorder and a fake clockwork clock: 0..3 deliveries parked without a reader or a reader parked, the cleaner tick placed so that the connection's age is timeout-2s..timeout+2s, 1..3 ticks; oracle: no panic in ServeHTTP, readers of an expired connection fail. "
+              "Non-trivial = >=2 envelopes or a body >32KiB (roundtrip); every raw/ctx/idle case."),
+        jobs=[dict(test="TestC19RoundTrip", quick=480, thorough=8000), dict(test="TestC19Raw", quick=800, thorough=20000), dict(test="TestC19Ctx", quick=48, thorough=400, shards=8),
+              dict(test="TestC19Idle", quick=400, thorough=6000, shards=8), dict(test="FuzzC19Decode", kind="fuzz", quick=0, thorough=120)],
+        floors={"rt.websocket": 0.1, "rt.http": 0.1, "rt.channel": 0.05},
+        assumptions=COMMON_ASSUMPTIONS + ["WebSocket and HTTP sub-checks use real loopback sockets and wall-clock budgets; exceeding a budget is reported as inconclusive (exit 2), never as a violation"],
+        timeout_quick=600,
+    ),
 }
